@@ -73,8 +73,8 @@ CLAIMED = {
         "design_ref": "DESIGN.md section 6, C02",
         "engine": "verus+kani",
         "technique": "Verus (Z3): representation invariant + pre/postconditions on the mechanically extracted SymbolPrioritySelector::{new,consider,best}, and an inductive lemma over all candidate sequences; Kani replay harness on the real selector (bounded, <= 4 candidates) and a bounded harness (<= 4 candidates) on the real select_symbol loop with symbol_strength / is_in_comdat_group answered from symbolic tables",
-        "text": "SELECTOR (proof) AND select_symbol LOOP (bounded) - how a symbol's strength is read from its object file, archive/visibility interplay and undefined-symbol errors are not decided. The three methods are extracted verbatim (rules X1, X2, X7) and given contracts over an abstract view (the sequence of candidates considered so far, in command-line order): new() represents the empty sequence; consider() maintains first-strong / earliest-largest-common / first-weak for EVERY prior sequence; best() returns the ELF rule's choice (strong > largest common > weak, earliest among equals, Undefined never wins). A lemma proved from those contracts alone shows fold(consider).best() is the rule's choice for candidate vectors of any length. This is a data-structure-against-abstract-view property, which needs induction: Verus.",
-        "note": "The real select_symbol loop (dynamic definitions never override object definitions, duplicate-strong error with COMDAT and --allow-multiple-definition exemptions, fallback to the first defined shared-library candidate) is checked for up to 4 candidates with the two object-file queries stubbed by symbolic tables - bounded, not counted as proved. Not decided: SymbolStrength::of, resolution of undefined/weak-undefined references, check_for_undefined. Trusted: is_best() as the transcription of the property's rule; assume_specification for Option::or; extraction rules. The Kani harness is a bounded replay vehicle only and is not counted as proved.",
+        "text": "SELECTOR (proof) AND select_symbol LOOP (bounded) - archive/visibility interplay and undefined-symbol errors are not decided. The three methods are extracted verbatim (rules X1, X2, X7) and given contracts over an abstract view (the sequence of candidates considered so far, in command-line order): new() represents the empty sequence; consider() maintains first-strong / earliest-largest-common / first-weak for EVERY prior sequence; best() returns the ELF rule's choice (strong > largest common > weak, earliest among equals, Undefined never wins). A lemma proved from those contracts alone shows fold(consider).best() is the rule's choice for candidate vectors of any length. This is a data-structure-against-abstract-view property, which needs induction: Verus.",
+        "note": "The real select_symbol loop (dynamic definitions never override object definitions, duplicate-strong error with COMDAT and --allow-multiple-definition exemptions, fallback to the first defined shared-library candidate) is checked for up to 4 candidates with the two object-file queries stubbed by symbolic tables - bounded, not counted as proved. SymbolStrength::of is under contract for every symbol-table entry (complete). Not decided: resolution of undefined/weak-undefined references, check_for_undefined. Trusted: is_best() as the transcription of the property's rule; assume_specification for Option::or; extraction rules. The Kani harness is a bounded replay vehicle only and is not counted as proved.",
     },
     "C01": {
         "category": "proof",
@@ -122,7 +122,7 @@ CLAIMED = {
         "category": "other",
         "design_ref": "DESIGN.md section 6, C22",
         "technique": "Kani panic-freedom harnesses (automatic index / overflow / unwrap checks are the obligations) with unconstrained inputs on the real <ElfX86_64 as Arch>::new_relaxation + Relaxation::apply, RelocationKindInfo::write_to_buffer, <SymtabEntry as platform::Symbol>::*, DynamicLayoutStateExt::mark_version_as_needed + elf_writer::copy_symbol_version, the Divide/shift arms of evaluate_expression (extracted, shared with C16) and, bounded, ArchiveIterator over the object crate's archive parser",
-        "text": "A LIST OF INPUT-FACING FUNCTIONS, not 'any bytes supplied as objects' - the object crate's ELF parser, the winnow parsers, argument parsing and everything over Layout are not covered. CBMC proves no panic (index, slice, arithmetic overflow, unwrap) in: the x86-64 relaxation matcher and rewriter for every section content and every 64-bit relocation offset, inside or outside the section (complete); write_to_buffer for every value and buffer length (complete); linker-script division and shifts for all operand pairs (complete); every query wild makes on an input symbol-table entry, all 24 bytes symbolic, with COMMON symbols decoded exactly (complete); the validation / use pair for symbol-version indexes of input shared libraries (mark_version_as_needed rejects every index the library does not define; under that precondition copy_symbol_version's unchecked table index cannot panic; bounded to 4 versions; the glue between the two passes is not proved); In the thorough tier only (it does not finish within the quick budget and is reported undecided when it does not): archive member iteration over the object crate's parser for single-member archives of at most 72 bytes. Three defects were repaired (relaxation offsets, a truncated archive member shown natively, a COMMON symbol whose aligned size overflows).",
+        "text": "A LIST OF INPUT-FACING FUNCTIONS, not 'any bytes supplied as objects' - the object crate's ELF parser, the winnow parsers, argument parsing and everything over Layout are not covered. CBMC proves no panic (index, slice, arithmetic overflow, unwrap) in: the x86-64 relaxation matcher and rewriter for every section content and every 64-bit relocation offset, inside or outside the section (complete); write_to_buffer for every value and buffer length (complete); linker-script division and shifts for all operand pairs (complete); every query wild makes on an input symbol-table entry, all 24 bytes symbolic, with COMMON symbols decoded exactly (complete); the validation / use pair for symbol-version indexes of input shared libraries (mark_version_as_needed rejects every index the library does not define; under that precondition copy_symbol_version's unchecked table index cannot panic; bounded to 4 versions; the glue between the two passes is not proved); An obligation for archive member iteration over the object crate's parser (single-member archives of at most 72 bytes) is written but does not finish under CBMC; it is kept outside both tiers and not claimed. Three defects were repaired (relaxation offsets, a truncated archive member shown natively, a COMMON symbol whose aligned size overflows).",
         "note": "Assumed: the relocation type reaching new_relaxation is one the x86-64 table accepts (the caller bails out first); archive bytes start with the magic; format/backtrace/cpuid stubs on error paths. AArch64/RISC-V/LoongArch relaxation code is not covered (AArch64's debug_assert! on instruction bytes is by design).",
     },
     "C30": {
